@@ -8,6 +8,7 @@ import (
 	"net/http"
 	"os"
 	"os/exec"
+	"reflect"
 	"strings"
 	"testing"
 
@@ -380,12 +381,26 @@ func TestC13(t *testing.T) {
 	rec.Rule = "rapid draws DialOptions (URL scheme ws/wss/http/https, caller headers incl. ones the library must override, Host override, 0-3 subprotocols, 3 compression modes) observed by a custom RoundTripper, and a server response built from a valid one by 0-2 mutations over status {101,200,204,301,400,426,500,100,102}, Connection/Upgrade variants, accept key {correct, for another key, missing, case-changed, truncated}, subprotocol {none, requested, other case, unrequested, empty}, 17 extension header variants. Independent predicates check the request and decide whether the response may be accepted (ok / bad / either). Keys of 200 Dials are pairwise distinct; thorough re-runs that in a second process and requires disjoint sets. Non-trivial: a response valid in all but one respect, or valid with multi-token headers. distinct = hash(options, response)."
 	rapid.Check(t, func(rt *rapid.T) {
 		c := genC13(rt)
+		hdrBefore := c.Header.Clone()
 		conn, err, seen, _ := doC13(c)
 		if conn != nil {
 			defer conn.CloseNow()
 		}
 		verdict := c13Verdict(c)
 		msg := checkC13Request(c, seen.Req)
+		if msg == "" && !reflect.DeepEqual(c.Header, hdrBefore) {
+			msg = fmt.Sprintf("Dial modified the caller's HTTPHeader: before %v, after %v", hdrBefore, c.Header)
+		}
+		if msg == "" && rapid.IntRange(0, 3).Draw(rt, "reuseHeader") == 0 {
+			// the same header map reused for a second Dial that asks for less
+			c2 := c
+			c2.Protos, c2.Mode = nil, websocket.CompressionDisabled
+			c2.Resp = c13Resp{Status: 400, Accept: "correct", Proto: "none", ExtKind: "none"}
+			_, _, seen2, _ := doC13(c2)
+			if m2 := checkC13Request(c2, seen2.Req); m2 != "" {
+				msg = "second Dial reusing the caller's header map: " + m2
+			}
+		}
 		if msg == "" {
 			switch {
 			case (conn == nil) != (err != nil):
